@@ -375,6 +375,58 @@ pub fn run(ctx: &Ctx, replay: Option<&J>) -> i32 {
         let (si, ii, m) = jobs[i];
         check(ctx, &scripts[si], &sets[ii], m);
     });
+    // ---- large non-ASCII sources: the script text itself arrives through reads of bounded size
+    // (file, inline argument, -e on stdin in one write and in small chunks)
+    {
+        let mut jobs: Vec<(String, String, &'static str)> = vec![];
+        for (ch, name) in [('\u{e9}', "2-byte"), ('\u{20ac}', "3-byte"), ('\u{1f600}', "4-byte")] {
+            for pad in 0..ch.len_utf8() {
+                let word: String = std::iter::repeat(ch).take(40).collect();
+                let mut src = format!("// {}\n", "p".repeat(pad));
+                let n = 70_000 / (word.len() + 16);
+                for i in 0..n {
+                    src.push_str(&format!("v{} = \"{}\"\n", i, word));
+                }
+                src.push_str(&format!("output last = v{}\noutput count = {}\n", n - 1, n));
+                let want = json!({"last": word, "count": n as f64}).to_string();
+                for mode in ["file", "stdin-e", "stdin-e-chunked"] {
+                    jobs.push((format!("large-source:{}:pad{}:{}", name, pad, mode), src.clone(), mode));
+                    let _ = &want;
+                }
+            }
+        }
+        let results: Vec<crate::proc::CliResult> = par_map(&jobs, |(_, src, mode)| match *mode {
+            "file" => {
+                let f = scratch_file("large");
+                let _ = std::fs::write(&f, src);
+                let r = run_blots(&[f.clone()], None, None);
+                let _ = std::fs::remove_file(&f);
+                r
+            }
+            "stdin-e" => run_blots(&["-e".into()], Some(src.as_bytes()), None),
+            _ => crate::proc::run_cmd_chunked(&crate::proc::blots_bin(), &["-e".into()], Some(src.as_bytes()), None, std::time::Duration::from_secs(120), Some((4093, std::time::Duration::from_micros(300)))),
+        });
+        for ((name, src, _), r) in jobs.iter().zip(results.iter()) {
+            ctx.count(1);
+            ctx.nontrivial(name);
+            ctx.outcome("large-source");
+            // expected: the last string and the statement count
+            let n = src.lines().filter(|l| l.starts_with('v')).count();
+            let word = src.lines().find(|l| l.starts_with("v0 = ")).map(|l| l["v0 = \"".len()..l.len() - 1].to_string()).unwrap_or_default();
+            let want = json!({"last": word, "count": n as f64});
+            let got: Option<J> = serde_json::from_str(r.stdout.trim()).ok();
+            if r.code != Some(0) || got.as_ref() != Some(&want) {
+                ctx.violation(Violation {
+                    kind: "large-source".into(),
+                    class: name.rsplit(':').next().unwrap_or("").to_string(),
+                    input: format!("{} ({} bytes of source)", name, src.len()),
+                    expected: truncate(&want.to_string(), 120),
+                    observed: truncate(&r.describe(), 300),
+                    case: json!({"large_source": name}),
+                });
+            }
+        }
+    }
     crate::proc::cleanup_scratch();
     ctx.sample(json!({"script": ["a = 1", "output a", "output b = 2"], "inputs": "override", "mode": "File", "model": {"exit": 0, "outputs": {"a": 1, "b": 2}}}));
     ctx.sample(json!({"script": ["output b = 2", "c = nope"], "inputs": "none", "mode": "OutFile", "model": {"exit": "non-zero", "file": "not written"}}));
@@ -386,7 +438,7 @@ pub fn run(ctx: &Ctx, replay: Option<&J>) -> i32 {
     finish(
         ctx,
         "model_checking",
-        "model traces = every script of length <= 3/4 over an 12-statement alphabet (bind, output-with-binding, output of bound/unbound name, re-output, evaluation failure, non-portable function output, parse error, comment, #name / inputs.name reads, value_n reads) x 22 input sets (0..3 --input flags and/or stdin; objects with overlapping keys, arrays, scalars, explicit value_1 key, empty stdin, invalid JSON) x 5 invocation modes (file, inline, -e stdin, -o onto a missing file, -o onto a file holding a longer earlier outputs object); every trace is executed by the real binary and compared with the model (exit status biconditional, exactly one outputs object with the model's keys in declaration order and values, no object / no file on failure, diagnostics present); distinct = distinct (script, inputs, mode)",
+        "model traces = every script of length <= 3/4 over an 12-statement alphabet (bind, output-with-binding, output of bound/unbound name, re-output, evaluation failure, non-portable function output, parse error, comment, #name / inputs.name reads, value_n reads) x 22 input sets (0..3 --input flags and/or stdin; objects with overlapping keys, arrays, scalars, explicit value_1 key, empty stdin, invalid JSON) x 5 invocation modes (file, inline, -e stdin, -o onto a missing file, -o onto a file holding a longer earlier outputs object); every trace is executed by the real binary and compared with the model; plus 70 KB non-ASCII sources (2-, 3-, 4-byte characters at every phase) as file, on -e stdin in one write and in 4093-byte chunks (exit status biconditional, exactly one outputs object with the model's keys in declaration order and values, no object / no file on failure, diagnostics present); distinct = distinct (script, inputs, mode)",
         true,
         Some((scripts.len() as u64 * sets.len() as u64, n, n)),
     )
